@@ -98,32 +98,18 @@ impl Table {
           for file in files {
             tree.insert(file.components());
           }
-          let lines = tree.lines();
 
-          for (i, (last, name)) in lines.iter().enumerate() {
-            if i == 0 {
+          let mut first = true;
+          tree.lines(|prefix, name| {
+            if first {
+              first = false;
               write!(out, "  ")?;
             } else {
               write!(out, "{:indent$}  ", "", indent = name_width)?;
             }
 
-            if !last.is_empty() {
-              for last in &last[..last.len() - 1] {
-                if *last {
-                  write!(out, "  ")?;
-                } else {
-                  write!(out, "│ ")?;
-                }
-              }
-              if last[last.len() - 1] {
-                write!(out, "└─")?;
-              } else {
-                write!(out, "├─")?;
-              }
-            }
-
-            writeln!(out, "{name}")?;
-          }
+            writeln!(out, "{prefix}{name}")
+          })?;
         }
         Value::Scalar(scalar) => writeln!(out, "  {scalar}")?,
         Value::Size(bytes) => writeln!(out, "  {bytes}")?,
@@ -223,43 +209,61 @@ impl<'name> Tree<'name> {
   }
 
   fn insert(&mut self, file: &'name [String]) {
-    if file.is_empty() {
-      return;
+    let mut tree = self;
+
+    for name in file {
+      let index = match tree.children.iter().position(|child| child.name == name) {
+        Some(index) => index,
+        None => {
+          tree.children.push(Self::new(name));
+          tree.children.len() - 1
+        }
+      };
+
+      tree = &mut tree.children[index];
     }
-
-    let head = &file[0];
-
-    for child in &mut self.children {
-      if child.name == head {
-        child.insert(&file[1..]);
-        return;
-      }
-    }
-
-    let mut child = Self::new(head);
-    child.insert(&file[1..]);
-
-    self.children.push(child);
   }
 
-  fn lines(&self) -> Vec<(Vec<bool>, &'name str)> {
-    let mut lines = Vec::new();
-    let mut last = Vec::new();
-    self.lines_inner(&mut last, &mut lines);
-    lines
-  }
+  /// Call `line` for every node of the tree in depth-first order with the text
+  /// that connects the node to its ancestors and the node's name. Iterative, so
+  /// the depth of the tree is not limited by the size of the call stack.
+  fn lines(&self, mut line: impl FnMut(&str, &'name str) -> io::Result<()>) -> io::Result<()> {
+    line("", self.name)?;
 
-  fn lines_inner(&self, last: &mut Vec<bool>, lines: &mut Vec<(Vec<bool>, &'name str)>) {
-    lines.push((last.clone(), self.name));
-    last.push(false);
-    for (i, child) in self.children.iter().enumerate() {
-      if i == self.children.len() - 1 {
-        last.pop();
-        last.push(true);
-      }
-      child.lines_inner(last, lines);
+    let mut prefix = String::new();
+    let mut stack = vec![(self.children.iter(), 0)];
+
+    while let Some((children, indent)) = stack.last_mut() {
+      let child = match children.next() {
+        Some(child) => child,
+        None => {
+          stack.pop();
+          continue;
+        }
+      };
+
+      let last = children.as_slice().is_empty();
+
+      prefix.truncate(*indent);
+      prefix.push_str(if last { "└─" } else { "├─" });
+      line(&prefix, child.name)?;
+
+      prefix.truncate(*indent);
+      prefix.push_str(if last { "  " } else { "│ " });
+      stack.push((child.children.iter(), prefix.len()));
     }
-    last.pop();
+
+    Ok(())
+  }
+}
+
+impl<'name> Drop for Tree<'name> {
+  fn drop(&mut self) {
+    let mut stack = std::mem::take(&mut self.children);
+
+    while let Some(mut tree) = stack.pop() {
+      stack.append(&mut tree.children);
+    }
   }
 }
 
